@@ -1,5 +1,6 @@
 ----------------------------- MODULE MC_Timers -----------------------------
 EXTENDS Timers
-C(i, s, d, n) == [interval |-> i, sharp |-> s, idle |-> d, initdelay |-> n, backoff |-> 2]
-AllConfs == {C(3, FALSE, 0, 0), C(3, TRUE, 0, 1), C(3, FALSE, 2, 0), C(2, TRUE, 3, 2), C(0, FALSE, 2, 0), C(0, FALSE, 0, 0), C(2, FALSE, 0, 2)}
+CB(i, s, d, n, b) == [interval |-> i, sharp |-> s, idle |-> d, initdelay |-> n, backoff |-> b]
+C(i, s, d, n) == CB(i, s, d, n, 2)
+AllConfs == {C(3, FALSE, 0, 0), C(3, TRUE, 0, 1), C(3, FALSE, 2, 0), C(2, TRUE, 3, 2), C(0, FALSE, 2, 0), C(0, FALSE, 0, 0), C(2, FALSE, 0, 2), CB(3, FALSE, 0, 0, 0), CB(0, FALSE, 2, 0, 0)}
 =============================================================================
